@@ -34,7 +34,7 @@ From FB.Spec Require Import Prog.
 From FB.Model Require Import Types Monad CreatedFiles SimpleOps Builder Persist Build Run Frame.
 From FB.Spec Require Import Ref Oracle Faithful.
 From FB.Model Require Import Core CoreOracle CoreCache.
-From FB.Proofs Require Import ReplayLaws BuildFileLaws FrameLaws CleanLaws CoreLaws2 CoreLaws5 CoreLaws6 CoreLaws7 CoreNextDefs CoreNextThm ViewDefs ViewInit ViewXDefs ViewXRun ViewR2 ViewR3 ViewK3 ViewK4 ViewK8 HashMemoInv HashMemoRun SimA0 SimAMain SimC0 SimC12 SimC13 SimD4 SimD9 SimE3 SimG1 SimG5 SimG6 SimC14 SimC15 SimD5 SimD7 SimF6 SimF8 SimJ4 SimJ10 RollbackLaws RollbackDirsLaws.
+From FB.Proofs Require Import ReplayLaws BuildFileLaws FrameLaws CleanLaws CoreLaws2 CoreLaws5 CoreLaws6 CoreLaws7 CoreNextDefs CoreNextThm ViewDefs ViewInit ViewXDefs ViewXRun ViewR2 ViewR3 ViewK3 ViewK4 ViewK8 HashMemoInv HashMemoRun SimA0 SimAMain SimC0 SimC12 SimC13 SimD4 SimD9 SimE3 SimG1 SimG5 SimG6 SimC14 SimC15 SimD5 SimD7 SimF6 SimF8 SimJ4 SimJ10 SimM3 SimM6 RollbackLaws RollbackDirsLaws.
 (* T1g: Model/BuildDirs.v and Model/CreatedFiles.v are equal to the translation of build_dirs.py / created_files.py
    (Gen/BookGen.v, regenerated on every run); a change of those sources that the model does not follow breaks this import *)
 From FB.Proofs Require BookGenLaws.
@@ -185,14 +185,14 @@ Proof. exact mech_commit3_hash. Qed.
 Theorem C01_okc_in_okcH : forall c0 old, okc c0 old -> okcH c0 old.
 Proof. exact okc_okcH. Qed.
 
-(* THE CLASS IS PRESERVED (Proofs/SimD5-7.v, SimF1-6.v): the cache at the end of the root function of a build whose
-   previous cache is in okc is again in okc (for programs in which no function catches the exception of a nested call),
+(* THE CLASS IS PRESERVED (Proofs/SimD5-7.v, SimF1-6.v, SimJ11-13.v, SimM1-3.v; class okcH, programs free to use HASH): the cache at the end of the root function of a build whose
+   previous cache is in okcH is again in okcH (for programs in which no function catches the exception of a nested call),
    so the theorem above applies to the next build as far as the class is concerned. *)
 Theorem C01_mechanism_class_preserved : forall w cachefile old nm svers root w1 w2 v l c1,
-  okc (w_clock w) old -> fs_wf (w_fs w) -> old_ok old cachefile -> WfCache old -> old_keys_ok old -> w_faults w = [] ->
+  okcH (w_clock w) old -> fs_wf (w_fs w) -> old_ok old cachefile -> WfCache old -> old_keys_ok old -> w_faults w = [] ->
   path_ok (dirname cachefile) = true -> isdir (w_fs w) cachefile = false -> (maxlen (w_fs w) < walk_fuel)%nat ->
   vdir (Build.start_world w cachefile old nm svers) (dirname cachefile) = true ->
-  AllTargets tgtP root -> NoNest [] root -> QueriesOk root -> WfArgs root -> CmpMeta root ->
+  AllTargets tgtP root -> NoNest [] root -> QueriesOkP root -> WfArgs root ->
   TargetsClear old root -> TargetsApart old root -> RkNew old [] root ->
   (* no function catches the exception of a nested call *)
   NoCatch root ->
@@ -203,19 +203,19 @@ Theorem C01_mechanism_class_preserved : forall w cachefile old nm svers root w1 
      before the root function has returned *)
   (forall p f, lookup (w_fs w) p = Some (NFile f) -> (f_mtime f <= w_clock w)%N) ->
   (w_clock w2 <= c1)%N ->
-  okc c1 (w_new w2).
-Proof. exact okc_next_closed. Qed.
+  okcH c1 (w_new w2).
+Proof. exact okcH_next_closed. Qed.
 
-(* ANY NUMBER OF BUILDS, partial (Proofs/SimF7-9.v): for a list of successive builds starting without a cache file,
+(* ANY NUMBER OF BUILDS, partial (Proofs/SimF7-9.v, SimM4-6.v): for a list of successive builds starting without a cache file,
    every build returns the reference value and leaves the reference tree; for builds after the first no hypothesis
    about the class, WfCache, cache_wf or "the cache file is not an output" is left (they come from the previous build).
-   Still hypotheses per build (inside Side / chain, SimF8.v): faithful_cache and old_ok of the cache read, and `link`:
+   Still hypotheses per build (inside SideH / chainH, SimM6.v): faithful_cache and old_ok of the cache read, and `link`:
    the cache the next build reads is the normal form of the cache the previous build held (SimF8.mech_readback_statement,
    mech_next_cache_statement: not proved; C16's round-trip theorem is the cache-level half). *)
 Theorem C01_mechanism_chain_partial : forall cf nm l b,
   lookup (w_fs (b_w b)) cf = None ->
-  Side cf nm b -> chain cf nm b l -> Forall (good cf nm) (b :: l).
-Proof. exact mech_chain_partial. Qed.
+  SideH cf nm b -> chainH cf nm b l -> Forall (good cf nm) (b :: l).
+Proof. exact mech_chain_hash_partial. Qed.
 
 (* the hypotheses are satisfiable: a content oracle read off the tree, and a concrete instance
    (a previous cache, a tree on which the replay succeeds) *)
